@@ -47,9 +47,9 @@ func init() {
 			"a panic or error while ENCODING a value is counted as a probe (encode-panic/..., unencodable/...), not a violation: the statement's safety clause is about decoding",
 			"allocation bound is a length-prefix-bomb detector only (4096 x input + 16 MiB)",
 		},
-		QuickRuns: 1600, QuickBudget: 55 * time.Second,
-		ThoroughRuns: 40000, ThoroughBudget: 15 * time.Minute,
-		RunsPerProcess: 400,
+		QuickRuns: 20000, QuickBudget: 55 * time.Second,
+		ThoroughRuns: 200000, ThoroughBudget: 18 * time.Minute,
+		RunsPerProcess: 2000,
 		Run:            run,
 	})
 }
@@ -387,7 +387,11 @@ func (r *runner) roundTrip(tg *target, v interface{}, hand []byte, src string) [
 			return nil
 		}
 		// repeat-encode: identical bytes every time (maps iterate randomly)
-		for i := 0; i < 2; i++ {
+		reps := 2
+		if tg.name == "state.Account" {
+			reps = 8 // a 2-entry map iterates in the same order half of the time
+		}
+		for i := 0; i < reps; i++ {
 			again, _ := r.encode(tg, v)
 			if !bytes.Equal(again, enc) {
 				r.violate("canonical", "canonical/repeat-encode/"+tg.name, "two encodings of the same %s value differ: %x vs %x", tg.name, clipN(enc, 64), clipN(again, 64))
@@ -775,7 +779,7 @@ func (r *runner) mapOrder() {
 		return
 	}
 	r.c.Evals(1)
-	for rep := 0; rep < 3; rep++ {
+	for rep := 0; rep < 6; rep++ {
 		g.Shuffle(n, func(i, j int) { order[i], order[j] = order[j], order[i] })
 		// insert, delete and re-insert some keys too: equal maps, different history
 		v := build(order)
